@@ -2175,6 +2175,16 @@ def _norm_simple(stmts, ctx):
                 changed = True
                 i += 1
                 continue
+            if isinstance(st, ast.Return) and isinstance(st.value, ast.Tuple) and st.value.elts \
+                    and isinstance(st.value.elts[0], ast.IfExp) and not any(isinstance(x_, ast.Starred) for x_ in st.value.elts):
+                # return (A if c else B, rest)  ==  if c: return (A, rest) else: return (B, rest)    (c is evaluated first)
+                e = st.value.elts[0]
+                mk_t = lambda arm: ast.Return(value=ast.Tuple(elts=[arm] + [_copy_expr(x_) for x_ in st.value.elts[1:]],
+                                                               ctx=ast.Load()), lineno=st.lineno, col_offset=0)
+                out.append(ast.If(test=e.test, body=[mk_t(e.body)], orelse=[mk_t(e.orelse)], lineno=st.lineno, col_offset=0))
+                changed = True
+                i += 1
+                continue
             if isinstance(st, ast.Return) and isinstance(st.value, ast.IfExp):
                 e = st.value
                 out.append(ast.If(test=e.test, body=[ast.Return(value=e.body, lineno=st.lineno, col_offset=0)],
